@@ -29,6 +29,8 @@ def parseAssign (tok : String) : Option Assign :=
 def parseOp (line : String) : Option (String × List Assign) :=
   match tokens line with
   | kind :: rest =>
+    -- options (m=<mode>, b=<base>) select how the harness calls the code; the model's answer is the same
+    let rest := rest.filter (fun t => !(t.startsWith "m=" || t.startsWith "b="))
     if kind = "red" ∨ kind = "hos" then (rest.mapM parseAssign).map (fun as => (kind, as)) else none
   | [] => none
 
